@@ -91,7 +91,7 @@ def _S(M):
 
 
 def gen_cases(rng: Rng, tier):
-    n_cases = dict(quick=64, thorough=800)[tier]
+    n_cases = dict(quick=52, thorough=800)[tier]
     mk_kinds = ["random", "random", "heavy", "ends", "onefull", "none", "none"]
     for k in range(n_cases):
         if k % 32 == 5:
@@ -132,7 +132,7 @@ def gen_cases(rng: Rng, tier):
             lpdeg=rng.choice([0, 1, 1, 2]),
             nseg=rng.randint(1, 5), psdeg=rng.randint(1, 3), pen=rs(rng.choice([Fraction(1, 4), 1, 1, 8, 0, Fraction(1, 2 ** 30), Fraction(2 ** 30)])),
             order=rng.choice([1, 2, 2, 3]), a=rs(rng.choice([rng.dyadic(-3, 3, 2), Fraction(2), Fraction(0), Fraction(1, 2 ** 40), Fraction(2 ** 40)])),
-            csv=(k % 10 == 7), strided=(k % 4 == 1), penspell=rng.choice(["tuple", "list", "int", "float", "np", "array"]),
+            csv=(k % 10 == 7), strided=(k % 4 == 1), extra=bool(sparse15 or k % 2 == 0), penspell=rng.choice(["tuple", "list", "int", "float", "np", "array"]),
         )
 
 
@@ -346,13 +346,15 @@ def _ops(fd, case, irregular=True):
         _try(out, "cov_raw_nc", lambda: _vals(fd.covariance(smooth=False, center=False))[0])
         _try(out, "cov_raw_lp", lambda: _vals(fd.covariance(smooth=False, method_smoothing="LP", kwargs_center=dict(bandwidth=bw)))[0])
         _try(out, "cov_lp", lambda: _vals(fd.covariance(method_smoothing="LP", bandwidth=bw, kwargs_center=dict(bandwidth=bw)))[0])
-        _try(out, "cov_default", lambda: _vals(fd.covariance())[0])
+        if case.get("extra", True):
+            _try(out, "cov_default", lambda: _vals(fd.covariance())[0])
         ppos = max(p0, 0.25)
         cps = dict(n_segments=min(case["nseg"], 4), degree=case["psdeg"])
         _try(out, "cov_ps", lambda: _vals(fd.covariance(method_smoothing="PS", penalty=(ppos, ppos), kwargs_center=dict(penalty=pen_canon, **pskw), **cps))[0])
+        _try(out, "cov_ps_nc", lambda: _vals(fd.covariance(method_smoothing="PS", center=False, penalty=(ppos, ppos), **cps))[0])
         # standardisation with every bandwidth explicit (inner centring included)
         skw = dict(bandwidth=bw, kwargs_center=dict(bandwidth=bw))
-        for key_, ctr in (("std_lp", True), ("std_nc_lp", False)):
+        for key_, ctr in ((("std_lp", True), ("std_nc_lp", False)) if case.get("extra", True) else (("std_lp", True),)):
             try:
                 with warnings.catch_warnings():
                     warnings.simplefilter("ignore")
@@ -375,6 +377,7 @@ def _ops(fd, case, irregular=True):
         ppos = max(p0, 0.25)
         cps = dict(n_segments=min(case["nseg"], 4), degree=case["psdeg"])
         _try(out, "cov_ps", lambda: _vals(fd.covariance(method_smoothing="PS", penalty=(ppos, ppos), kwargs_center=dict(penalty=pen_canon, **pskw), **cps))[0])
+        _try(out, "cov_ps_nc", lambda: _vals(fd.covariance(method_smoothing="PS", center=False, penalty=(ppos, ppos), **cps))[0])
         _try(out, "gram_none", lambda: np.asarray(fd.inner_product(noise_variance=0), dtype=float).tolist())
         _try(out, "gram_none_s2", lambda: np.asarray(fd.inner_product(noise_variance=float(F(case.get("s2", "1/4")))), dtype=float).tolist())
         _try(out, "gram_lp", lambda: np.asarray(fd.inner_product(noise_variance=0, method_smoothing="LP", bandwidth=bw), dtype=float).tolist())
@@ -704,7 +707,7 @@ def compare(case, impl, model):
     names = ["add", "sub", "mulfd", "mul", "addnum", "divfd"]
     for k, nm in enumerate(names):
         for j, e in enumerate(encs):
-            ds += _cmp_rows(f"{nm}[{e}]", impl[e][nm], _rows(parts[2 * k + j]), exact=False, scale=vs * vs + 10)
+            ds += _cmp_rows(f"{nm}[{e}]", impl[e][nm], _rows(parts[2 * k + j]), exact=False, scale=vs * vs + 10 + abs(float(F(case["a"]))) * (vs + 1))
     # P-spline: backward error of the implementation's coefficients in the model's exact normal equations
     if o[8] != "noop":
         K = case["nseg"] + case["psdeg"]
@@ -774,7 +777,7 @@ ENTRY = {
     "arith_add": "arithmetic", "arith_sub": "arithmetic", "arith_mul": "arithmetic", "arith_div": "arithmetic", "arith_floordiv": "arithmetic",
     "smooth_lp_pts": "smooth", "smooth_ps_pts": "smooth", "smooth_interp_pts": "smooth", "mean_lp_pts": "mean",
     "divfd": "arithmetic", "floordivfd": "arithmetic", "divfd_nsq": "arithmetic", "divfd_npoints": "arithmetic", "divfd_long": "arithmetic",
-    "cov_ps": "covariance", "std_lp": "standardize", "std_nc_lp": "standardize",
+    "cov_ps": "covariance", "cov_ps_nc": "covariance", "std_lp": "standardize", "std_nc_lp": "standardize",
     "center_given": "center", "nsq_stand": "norm", "gram_lp_s2": "inner_product", "divnum": "arithmetic", "tb_grid": "to_basis",
 }
 DEFAULT_BW = {"smooth_lp_default", "mean_default", "center_default", "cov_default", "gram_default", "rescale_default"}
@@ -798,6 +801,21 @@ def _oracle_enc(case, impl):
         vs_.append(dict(clause=clause, entry="IrregularFunctionalData." + ENTRY.get(key, key), msg=f"{key}: {msg}", causes=list(causes)))
 
     A, B = impl["nan"], impl["rag"]
+    # P-spline based results are compared with a tolerance conditioned on the fits (tiny or huge penalties and
+    # spline spaces larger than the sample make the normal equations ill-conditioned; both encodings then differ
+    # by rounding times the condition number, not by a formula)
+    cond = 1.0
+    for o_ in (A, B):
+        for ft in (o_.get("ps_fits") or []):
+            try:
+                Bm = np.array(ft["basis"], dtype=float)
+                w = np.ones(Bm.shape[1]) if ft["w"] is None else np.array(ft["w"], dtype=float)
+                P_ = _penalty_matrix(Bm.shape[0], ft["order"]).astype(float)
+                cond = max(cond, float(np.linalg.cond(Bm @ np.diag(w) @ Bm.T + float(ft["pen"][0]) * P_)))
+            except Exception:
+                cond = float("inf")
+    ps_tol = min(1e-3, max(1e-7, 1e-11 * cond)) if math.isfinite(cond) else 1e-3
+    PS_KEYS = {"smooth_ps", "smooth_ps_pts", "smooth_ps_canon", "mean_ps", "rescale_ps", "to_basis", "tb_grid", "cov_ps", "cov_ps_nc"}
     for key in ENTRY:
         if key not in A or key not in B:
             continue
@@ -822,7 +840,7 @@ def _oracle_enc(case, impl):
                     bad("encoding_independent", key, f"union grids differ: {a} vs {b}")
                 continue
             mag = max(1.0, float(np.abs(fb).max()) if fb.size else 1.0)
-            if fa.shape != fb.shape or not np.all(np.abs(fa - fb) <= 1e-7 * mag):
+            if fa.shape != fb.shape or not np.all(np.abs(fa - fb) <= (ps_tol if key in PS_KEYS else 1e-7) * mag):
                 causes = []
                 if key in DEFAULT_BW and nmiss > 0 and A.get("n_points") != B.get("n_points"):
                     causes.append("default_bandwidth_counts_nan")
@@ -913,7 +931,7 @@ def _oracle_enc(case, impl):
                  ("add", "add", 1.0), ("mul", "mul", 1.0), ("to_basis", "to_basis", 1.0), ("smooth_lp_pts", "smooth_lp_pts", 1.0),
                  ("smooth_ps_pts", "smooth_ps_pts", 1.0), ("mean_lp_pts", "mean_lp_pts", 1.0), ("center_given", "center_given", 1.0),
                  ("nsq_stand", "nsq_stand", 1.0), ("gram_lp_s2", "gram_none_s2", 1.0), ("divnum", "divnum", 1.0),
-                 ("divfd", "divfd", 1.0), ("floordivfd", "floordivfd", 1.0), ("cov_ps", "cov_ps", n / (n - 1))]
+                 ("divfd", "divfd", 1.0), ("floordivfd", "floordivfd", 1.0), ("cov_ps_nc", "cov_ps_nc", n / (n - 1))]
         for ki, kd, fac in pairs:
             for e, o_ in (("NaN", A), ("ragged", B)):
                 if ki not in o_ or kd not in Dn:
@@ -933,7 +951,7 @@ def _oracle_enc(case, impl):
                     both = ~np.isfinite(fa_) & ~np.isfinite(fd_)  # e.g. 0/0 for a zero curve, on both sides
                     fa_, fd_ = fa_[~both], fd_[~both]
                 mag = max(1.0, float(np.abs(fd_).max()) if fd_.size else 1.0)
-                if fa_.shape != fd_.shape or not np.all(np.abs(fa_ - fd_) <= 1e-6 * mag):
+                if fa_.shape != fd_.shape or not np.all(np.abs(fa_ - fd_) <= (max(1e-6, ps_tol) if ki in PS_KEYS else 1e-6) * mag):
                     causes = []
                     if ki == "mean_ps":
                         causes.append("format_data_keeps_last_value")
